@@ -336,7 +336,117 @@ def shared_inner(ctx, rng, ncases):
 
 
 def run(ctx):
-    return _run_linear(ctx) + [shared_inner(ctx, ctx.rng(5), ctx.size(400, 6000))]
+    return _run_linear(ctx) + [shared_inner(ctx, ctx.rng(5), ctx.size(400, 6000)), precision_in_tree(ctx, ctx.rng(9), ctx.size(48, 600))]
+
+
+def _prec_worker(spec):
+    """a whole tree run whose global stop condition reads a precision wrapper: the wrapper's laws — the first
+    within-precision answer sets `hit_precision` and records the call index in `ETA`; neither ever changes again —
+    are checked on the real objects after construction, at every consult of the stop condition and after every
+    step; the calls that reached the wrapper are replayed through the model's wrapper afterwards"""
+    import pyhms.tree as T
+    from pyhms.config import TreeConfig
+    from pyhms.core import problem as P
+
+    from .. import runs as R2
+    from ..common import RunTimeout, is_env_crash, run_limit
+
+    found, seen = [], []
+    try:
+        with run_limit():
+            o = R2.build(spec, None, plain="callable")
+            pp = o["probs"][0]
+            while pp is not None and not isinstance(pp, P.PrecisionCutoffProblem):
+                pp = getattr(pp, "_inner", None)
+            if pp is None:
+                return {"status": "skip"}
+            answers = []
+            orig_eval = pp.evaluate
+
+            def ev(phenome, *a, **k):
+                v = orig_eval(phenome, *a, **k)
+                answers.append(float(v))
+                return v
+
+            pp.evaluate = ev
+            opt, eps = float(pp._global_optima), float(pp.precision)
+
+            def expected():
+                idx = next((i + 1 for i, v in enumerate(answers) if abs(v - opt) <= eps), None)
+                return (idx is not None), idx
+
+            def look(where):
+                hit, eta = bool(pp.hit_precision), pp.ETA
+                eh, ei = expected()
+                seen.append((where, hit, None if eta == float("inf") else int(eta)))
+                if hit != eh or (eh and int(eta) != ei) or (not eh and eta != float("inf")):
+                    if not found:
+                        found.append(f"{where}: the precision wrapper reports hit_precision={hit}, ETA={eta}, but of the {len(answers)} answers it has returned so far the first one within {eps} of the optimum {opt} is {'number ' + str(ei) if eh else 'none'}")
+
+            gsc = o["gsc"]
+
+            class Looking:
+                def __init__(self, inner):
+                    self.inner = inner
+
+                def __call__(self, tree):
+                    look(f"before consult (metaepoch {tree.metaepoch_count})")
+                    v = self.inner(tree)
+                    look(f"after consult (metaepoch {tree.metaepoch_count})")
+                    return v
+
+            opts = {"random_seed": spec["seed"], "hibernation": spec["hibernation"]}
+            tree = T.DemeTree(TreeConfig(o["levels"], Looking(gsc), o["sm"], options=opts, config_class_to_deme_class=o["custom"]))
+            look("after construction")
+            steps = 0
+            while not tree._gsc(tree) and steps < spec["max_steps"]:
+                tree.run_step()
+                steps += 1
+                look(f"after step {steps}")
+    except RunTimeout as e:
+        return {"status": "crash", "detail": f"run did not terminate: {e}"}
+    except Exception as e:  # noqa: BLE001
+        return {"status": "env" if is_env_crash(e) else "crash", "detail": f"{type(e).__name__}: {e}"}
+    return {"status": "ok", "found": found, "answers": answers[:4000], "final": (bool(pp.hit_precision), None if pp.ETA == float("inf") else int(pp.ETA), int(pp._n_evals)), "opt": opt, "eps": eps, "hit_at_construction": bool(seen and seen[0][1])}
+
+
+def precision_in_tree(ctx, rng, n):
+    from .. import runs as R2
+    from ..common import pmap
+
+    sl = Slice("precision wrapper inside a running tree (first-hit index, stickiness; replayed through the model's wrapper)")
+    n = ctx.boost(n) if hasattr(ctx, "boost") else n
+    specs = []
+    for _ in range(n):
+        spec = R2.rand_spec(rng, gsc={"kind": "SingularProblemPrecisionReached", "precision": float(rng.choice([0.05, 0.5, 5.0, 50.0]))}, objective=str(rng.choice(["sphere", "four", "plateau0"])), maximize=False, max_steps=6, cutoff=None)
+        specs.append(spec)
+    lines, metas = [], []
+    for spec, r in zip(specs, pmap(_prec_worker, specs, chunksize=2)):
+        if r["status"] in ("env", "skip"):
+            sl.skipped += 1
+            continue
+        if r["status"] == "crash":
+            sl.violations.append({"signature": "C16/run-crashed", "detail": r["detail"], "replay": {"spec": spec}})
+            continue
+        sl.cases += 1
+        sl.count("hit-at-construction" if r["hit_at_construction"] else ("hit-later" if r["final"][0] else "never-hit"))
+        if r["final"][0]:
+            sl.nontrivial.add(R2.spec_id(spec))
+        for m in r["found"]:
+            sl.violations.append({"signature": "C16/precision-flag-or-ETA-not-first-hit", "detail": m, "replay": {"spec": spec}})
+        vs = r["answers"]
+        if vs and len(vs) < 4000:
+            lines.append(f"wrap 0 1 P 0 {fr(r['opt'])} {fr(r['eps'])} - 0 {len(vs)} " + " ".join(fit(v) for v in vs))
+            metas.append((spec, r["final"]))
+    got = run_driver(lines)
+    for line, g, (spec, (hit, eta, nev)) in zip(lines, got, metas):
+        last = g.split(" || ")[-1].split(" | ")[-1].strip()
+        want = f"P {nev} {eta if eta is not None else 'none'} {1 if hit else 0}"
+        if last != want:
+            sl.disagreements.append({"op": line[:1500], "impl": want, "model": last, "spec": spec})
+    if specs:
+        sl.sample(R2.describe(specs[0]))
+    return sl
 
 
 def _run_linear(ctx):
